@@ -214,6 +214,7 @@ class ScalarOperation(Contract):
         else:
             body = lambda *k: S.same(S.at(rv, *k), S.op(op, S.at(old, *k), S.at(env["v"], *k)))
         yield "cell-is-numpys-op-on-the-values", S.forall_nd(shape, body)
+        yield "no-metadata-of-the-operand", len(result.attrs) == 0
         a = env["a"]
         yield "operand-untouched", S.land(a.values is env["data"], all(u is v for u, v in zip(a.axes, env["axes0"])), dict(a.attrs) == ATTRS,
                                           S.forall_nd(shape, lambda *p: S.same(S.at(env["data"], *p), S.at(old, *p))))
